@@ -259,8 +259,8 @@ def eval_docutils(ctx, case):
 SPHINX_TRIGGERS = ["header", "duplicate_def", "directive_unknown", "role_unknown", "directive_option", "directive_comments", "directive_parse", "xref_missing_text", "strikethrough", "attribute", "substitution", "footnote_dup", "footnote_unref", "plain"]
 
 
-def sphinx_run(text, S, exts):
-    b = drive.SphinxBuild({"index.md": text}, conf={"myst_enable_extensions": exts, "suppress_warnings": list(S), "keep_warnings": True}, builder="dummy")
+def sphinx_run(text, S, exts, extra_conf=None):
+    b = drive.SphinxBuild({"index.md": text}, conf={"myst_enable_extensions": exts, "suppress_warnings": list(S), "keep_warnings": True, **(extra_conf or {})}, builder="dummy")
     try:
         b.build()
         doc = b.doctree("index")
@@ -296,18 +296,23 @@ def eval_sphinx(ctx, case):
     S = case["S"]
     detail = {"text": text, "S": S}
     try:
+        # configuration-triggered warnings as well: a user mathjax class that MyST overrides (dollarmath on)
+        xc = {"mathjax3_config": {"options": {"processHtmlClass": "user-class"}}} if case.get("mathjax") else None
+        exts = EXT + (["dollarmath"] if case.get("mathjax") else [])
         WL.clear()
-        d0, r0, w0, rec0 = sphinx_run(text, [], EXT)
+        d0, r0, w0, rec0 = sphinx_run(text, [], exts, xc)
         ev0 = list(WL.events)
         WL.clear()
-        dS, rS, wS, recS = sphinx_run(text, S, EXT)
+        dS, rS, wS, recS = sphinx_run(text, S, exts, xc)
         evS = list(WL.events)
     except Exception as e:  # noqa: BLE001
         sig = core.exc_signature(e)
         ctx.count("no_document:sphinx:" + sig["type"])
         return False
     cat = catalogue()
-    for (t, st, msg) in rec0:
+    if case.get("mathjax") and any("is being overridden by myst-parser" in msg for _, _, msg in rec0):
+        ctx.count("sphinx_config_warning_triggered")
+    for (t, st, msg) in rec0 + recS:
         if t == "myst" and st not in cat:
             ctx.violation("catalogue:unknown-myst-subtype", f"[sphinx] warning logged with tag myst.{st}", case, detail)
         if t:
@@ -328,8 +333,17 @@ def eval_sphinx(ctx, case):
                 out[-1] += "\n" + l
         return out
 
+    def ltag(l):
+        # the mathjax-override warning is logged without a printed tag, but names its own suppression tag in its text
+        return "myst.mathjax" if "is being overridden by myst-parser" in l else line_tag(l)
+
     l0, lS = recs(w0), recs(wS)
-    exp_l = sorted(l for l in l0 if not (line_tag(l) and matches(S, line_tag(l))))
+    for l in l0 + lS:
+        # tags printed in the log (this also covers warnings emitted while the application is still being set up)
+        tg = line_tag(l)
+        if tg and tg.startswith("myst.") and tg.split(".", 1)[1] not in cat:
+            ctx.violation("catalogue:unknown-myst-subtype", f"[sphinx] log line carries the tag {tg}, which is not in MystWarnings: {l[:160]}", case, detail)
+    exp_l = sorted(l for l in l0 if not (ltag(l) and matches(S, ltag(l))))
     if exp_l != sorted(lS):
         removed = [l for l in exp_l if l not in lS]
         added = [l for l in lS if l not in exp_l]
@@ -422,7 +436,7 @@ def run_shard(ctx):
     for i in range(ns):
         trig = [R.choice(SPHINX_TRIGGERS) for _ in range(R.randint(1, 6))]
         exp = [triggers(0)[t][1] for t in trig if triggers(0)[t][1]]
-        case = {"kind": "sphinx", "triggers": trig, "S": rand_S(R, exp)}
+        case = {"kind": "sphinx", "triggers": trig, "S": rand_S(R, exp), "mathjax": R.random() < 0.3}
         nt = eval_case(ctx, case)
         ctx.case(repr(case), bool(nt))
         if i == 0:
